@@ -220,7 +220,10 @@ def run(ctx):
     gen()
     # ---- generated sources through path A, compiled together per scope (names made unique by a per-source prefix) ----
     for scope in ("extended", "basic"):
-        objs = batch[scope][: (400 if thorough else 120)]
+        # the Hypothesis-drawn sources of this scope plus the enumerated small scope of era-boundary x rule interactions
+        sysobjs = tzgen.systematic_sources(scope == "basic")
+        ctx.count("systematic_sources_" + scope, len(sysobjs))
+        objs = sysobjs + batch[scope][: (400 if thorough else 120)]
         if not objs:
             continue
         text = "".join(tzgen.render(o, "S%d" % i) for i, o in enumerate(objs))
